@@ -323,13 +323,23 @@ class BlockMeanFilter(Contract):
         gs = structure_of(labels)
         G = gs.G
         vg = c.ghost.get("verde.utils:variance_to_weights", [])
-        out["one_variance_to_weights_call_per_component"] = len(vg) == ncomp
-        if len(vg) != ncomp:
+        # (variance array, weights array) pairs in call order: one call per component, or one call with all of them in a
+        # tuple / list (variance_to_weights converts each array of a tuple separately - its own contract)
+        pairs = []
+        for va, vr in vg:
+            if isinstance(va.variance, (tuple, list)):
+                res = vr if isinstance(vr, tuple) else (vr,)
+                pairs += list(zip(va.variance, res)) if len(res) == len(va.variance) else [None]
+            else:
+                pairs.append((va.variance, vr))
+        ok_pairs = len(pairs) == ncomp and None not in pairs
+        out["each_components_variance_goes_through_variance_to_weights_once"] = ok_pairs
+        if not ok_pairs:
             return out
         for k in range(ncomp):
             d = flat(din[k])
-            va, vr = vg[k]
-            var = flat(va.variance)
+            var, vr = pairs[k]
+            var = flat(var)
             out["component%d_weights_are_variance_to_weights_of_its_variance" % k] = wts[k] is vr or All(wts[k].shape[0] == G, Forall((G,), lambda g, k=k, vr=vr: wts[k].at(g) == flat(vr).at(g)))
             if win is None:
                 mu = lambda g, d=d: agg_term("mean", gs, g, lambda p: d.at(p))
